@@ -38,6 +38,10 @@ func main() {
 	switch cmd {
 	case "merkle":
 		count, err = drive.MerkleReplay(*cases, *out, *seed, *inst)
+	case "robust":
+		count, err = drive.RobustRandom(*out, *seed, *n, *depth)
+	case "reimport":
+		count, err = drive.ReimportRandom(*out, *seed, *n, *depth)
 	case "ante":
 		count, err = drive.AnteReplay(*cases, *out, *seed)
 	case "handover":
